@@ -1001,3 +1001,224 @@ def c19_read_fcomponent(chk, prefix="read_fcomponent"):
         return {"confirmed": bool(bad), "inputs": bad[:6]} if bad else None
     discharge(chk, prefix, ex, extra_models=concrete)
     chk.extra["read_fcomponent_paths"] = len(paths)
+
+
+# ===============================================================================================================
+# C07  ResolveOuterVars.visit_OuterVar: unbounded scope chain, arbitrary scope contents, k declared names
+# ===============================================================================================================
+class _NameSub:
+    """An (immutable) sub-collection of node.names: bits[j] <=> the j-th declared name is a member.  A list keeps the
+    declaration order by construction."""
+
+    def __init__(self, bits, kind):
+        self.bits, self.kind = tuple(bits), kind
+
+
+class _ScopeSet:
+    """scope.defined / set(scope.bindings.keys()) of the scope at chain index idx: membership is uninterpreted."""
+
+    def __init__(self, idx):
+        self.idx = idx
+
+
+class _ScopeRef:
+    def __init__(self, idx):
+        self.idx = idx
+
+
+class _DeclNode:
+    def __init__(self, kind, names):
+        self.kind, self.names = kind, names
+
+
+class _Bound:
+    def __init__(self, obj, attr):
+        self.obj, self.attr = obj, attr
+
+
+class OuterVarModel(Model):
+    """Scope chain: index 0 is the scope of the declaration, index i+1 the parent of index i, index K (K >= 0 arbitrary)
+    the module scope, which has no parent.  Kind(i) = 0 for a ScopeFn (IsFn(i): a real function, not a class body), 1 for a
+    ScopeLet, anything else for other scope classes.  In(i, j): the j-th declared name is in that scope's `defined` set
+    (ScopeFn, ScopeGlobal) / `bindings` (ScopeLet).  All of these are uninterpreted: the proof holds for every chain."""
+
+    def __init__(self, k):
+        self.k = k
+        self.K = z3.Int("K")
+        self.Kind = z3.Function("Kind", z3.IntSort(), z3.IntSort())
+        self.IsFn = z3.Function("IsFn", z3.IntSort(), z3.BoolSort())
+        self.In = z3.Function("In", z3.IntSort(), z3.IntSort(), z3.BoolSort())
+        self.Seen = z3.Function("Seen", z3.IntSort(), z3.IntSort(), z3.BoolSort())     # ghost: bound by one of the scopes 1..i
+
+    def contrib(self, t, j):
+        return z3.And(t < self.K, z3.Or(z3.And(self.Kind(t) == 0, self.IsFn(t), self.In(t, j)), z3.And(self.Kind(t) == 1, self.In(t, j))))
+
+    def seen_step(self, t):
+        """Recursive definition of the ghost: Seen(t+1, j) <=> Seen(t, j) or scope t+1 binds name j."""
+        return z3.And([self.Seen(t + 1, j) == z3.Or(self.Seen(t, j), self.contrib(t + 1, j)) for j in range(self.k)])
+
+    def mem(self, s, j):
+        if isinstance(s, _NameSub):
+            return s.bits[j]
+        if isinstance(s, _ScopeSet):
+            return self.In(s.idx, j)
+        raise Unsupported(f"membership in {s!r}")
+
+    # -- hooks
+    def name(self, ex, st, n):
+        if n in ("set", "list", "isinstance"):
+            return _Bound(None, n)
+        if n in ("ScopeFn", "ScopeLet", "ScopeGlobal"):
+            return _Bound("class", n)
+        if n == "asty":
+            return _Bound("asty", None)
+        return NotImplemented
+
+    def getattr(self, ex, st, obj, name, node):
+        if isinstance(obj, Obj) and obj.kind == "outervar":
+            if name == "_scope":
+                return _ScopeRef(z3.IntVal(0))
+            if name == "names":
+                return _NameSub([z3.BoolVal(True)] * self.k, "list")
+        if isinstance(obj, _ScopeRef):
+            if name == "parent":
+                return _ScopeRef(obj.idx + 1)
+            if name == "defined":
+                return _ScopeSet(obj.idx)
+            if name == "is_fn":
+                return self.IsFn(obj.idx)
+            if name == "bindings":
+                return _Bound(obj, "bindings")
+        if isinstance(obj, _Bound) and obj.attr == "bindings" and name == "keys":
+            return _Bound(obj.obj, "bindings.keys")
+        if isinstance(obj, (_NameSub, _ScopeSet)) and name in ("intersection", "update", "issuperset"):
+            return _Bound(obj, name)
+        if isinstance(obj, _Bound) and obj.obj == "asty" and name in ("Global", "Nonlocal"):
+            return _Bound("asty", name)
+        return NotImplemented
+
+    def truthy(self, ex, st, v):
+        if isinstance(v, _NameSub):
+            return z3.Or(list(v.bits)) if v.bits else False
+        if isinstance(v, _ScopeRef):
+            return v.idx <= self.K            # scope K (the module) is the last one: scope.parent of it is None
+        if isinstance(v, _DeclNode):
+            return True
+        return NotImplemented
+
+    def call(self, ex, st, f, args, kwargs, node):
+        if not isinstance(f, _Bound):
+            return NotImplemented
+        if f.obj is None and f.attr == "set":
+            if not args:
+                return [Path(st, "normal", _NameSub([z3.BoolVal(False)] * self.k, "set"))]
+            if isinstance(args[0], _ScopeSet):
+                return [Path(st, "normal", args[0])]
+        if f.obj is None and f.attr == "list" and isinstance(args[0], _NameSub):
+            # list(<a set>) has no defined order: only a list made from a list keeps the declaration order
+            return [Path(st, "normal", _NameSub(args[0].bits, "list" if args[0].kind == "list" else "unordered"))]
+        if f.obj is None and f.attr == "isinstance" and isinstance(args[0], _ScopeRef) and isinstance(args[1], _Bound):
+            i = args[0].idx
+            r = {"ScopeFn": z3.And(i < self.K, self.Kind(i) == 0), "ScopeLet": z3.And(i < self.K, self.Kind(i) == 1),
+                 "ScopeGlobal": i == self.K}[args[1].attr]
+            return [Path(st, "normal", r)]
+        if f.attr == "bindings.keys":
+            return [Path(st, "normal", _ScopeSet(f.obj.idx))]
+        if f.attr == "intersection":
+            other = args[0]
+            return [Path(st, "normal", _NameSub([z3.And(self.mem(f.obj, j), self.mem(other, j)) for j in range(self.k)], "set"))]
+        if f.attr == "update" and isinstance(node.func.value, ast.Name):
+            cur = ex.load_name(st, node.func.value.id)
+            ex.store_name(st, node.func.value.id, _NameSub([z3.Or(cur.bits[j], self.mem(args[0], j)) for j in range(self.k)], "set"))
+            return [Path(st, "normal", NONE)]
+        if f.attr == "issuperset":
+            return [Path(st, "normal", z3.And([z3.Implies(self.mem(args[0], j), self.mem(f.obj, j)) for j in range(self.k)]))]
+        if f.obj == "asty" and f.attr in ("Global", "Nonlocal"):
+            return [Path(st, "normal", _DeclNode(f.attr, kwargs["names"]))]
+        return NotImplemented
+
+    def listcomp(self, ex, st, node):
+        # [name for name in X if name (not) in Y]
+        g = node.generators
+        if len(g) == 1 and isinstance(node.elt, ast.Name) and isinstance(g[0].target, ast.Name) and node.elt.id == g[0].target.id \
+                and len(g[0].ifs) == 1 and isinstance(g[0].ifs[0], ast.Compare) and len(g[0].ifs[0].ops) == 1 \
+                and isinstance(g[0].ifs[0].left, ast.Name) and g[0].ifs[0].left.id == node.elt.id \
+                and isinstance(g[0].ifs[0].ops[0], (ast.In, ast.NotIn)):
+            (px,) = ex.ev(st, g[0].iter)
+            (py,) = ex.ev(px.st, g[0].ifs[0].comparators[0])
+            neg = isinstance(g[0].ifs[0].ops[0], ast.NotIn)
+            x, y = px.val, py.val
+            bits = [z3.And(x.bits[j], z3.Not(self.mem(y, j)) if neg else self.mem(y, j)) for j in range(self.k)]
+            return [Path(py.st, "normal", _NameSub(bits, "list"))]
+        return NotImplemented
+
+    def loop_invariant(self, ex, st, node, ordinal):
+        m = self
+
+        def cur(st_):
+            return (ex.load_name(st_, "scope").idx, ex.load_name(st_, "defined"), ex.load_name(st_, "undefined"))
+
+        def inv(ex_, st_):
+            i, d, u = cur(st_)
+            return z3.And([i >= 0, i <= m.K, z3.Or(i == 0, i < m.K)]
+                          + [d.bits[j] == m.Seen(i, j) for j in range(m.k)] + [u.bits[j] == z3.Not(m.Seen(i, j)) for j in range(m.k)])
+
+        def havoc(ex_, st_):
+            i = ex_.fresh(z3.IntSort(), "i")
+            ex_.store_name(st_, "scope", _ScopeRef(i))
+            ex_.store_name(st_, "defined", _NameSub([ex_.fresh(z3.BoolSort(), "d") for _ in range(m.k)], "set"))
+            ex_.store_name(st_, "undefined", _NameSub([ex_.fresh(z3.BoolSort(), "u") for _ in range(m.k)], "list"))
+            st_.ghost["loop_head"] = i
+            st_.pc.append(m.seen_step(i))          # the instance of the ghost's definition this iteration needs
+        return E.LoopInv("scope-chain invariant (defined = names bound by the scopes walked so far, undefined = the others, in order)", inv, havoc)
+
+
+def c07_visit_outervar(chk, prefix="visit_OuterVar", concrete=None):
+    tree, fn = _src("hy/scoping.py", "ResolveOuterVars.visit_OuterVar")
+    chk.fn("hy/scoping.py::ResolveOuterVars.visit_OuterVar")
+    for k in (1, 2, 3):
+        m = OuterVarModel(k)
+        ex = Executor(tree, {}, m, "visit_OuterVar")
+        st = State()
+        st.pc += [m.K >= 0] + [z3.Not(m.Seen(0, j)) for j in range(k)]
+        paths = run_fn(ex, st, fn, {"self": Obj("transformer"), "node": Obj("outervar")})
+        tag = f"[{k} declared name{'s' if k > 1 else ''}]"
+        n_ret = {"global": 0, "nonlocal": 0}
+        for p in paths:
+            if p.kind != "return":
+                ex.oblige(f"never raises or falls off the end {tag}", p.st, z3.BoolVal(False))
+                continue
+            i = p.st.ghost.get("loop_head", z3.IntVal(0))
+            items = p.val.items if isinstance(p.val, E.Lst) else None
+            allnames = items is not None and len(items) == 1 and items[0].kind == "Nonlocal" and all(z3.is_true(z3.simplify(b)) for b in items[0].names.bits)
+            if allnames:
+                n_ret["nonlocal"] += 1
+                idx = ex.load_name(p.st, "scope").idx
+                u = ex.load_name(p.st, "undefined")
+                # every name is bound by an enclosing function/let  |  the declaration is at module level (no parent)  |
+                # the module scope was reached and a still unbound name is not a module-level variable (Python reports it)
+                ex.oblige(f"a lone `nonlocal` with all names is emitted only when every name is bound by an enclosing function or let, "
+                          f"or the error is left to Python {tag}", p.st,
+                          z3.Or(z3.And([m.Seen(i, j) for j in range(k)]), m.K == 0,
+                                z3.And(idx == m.K, z3.Or([z3.And(u.bits[j], z3.Not(m.In(m.K, j))) for j in range(k)]))))
+                continue
+            n_ret["global"] += 1
+            ok_shape = items is not None and 1 <= len(items) <= 2 and items[0].kind == "Global" and (len(items) == 1 or items[1].kind == "Nonlocal")
+            if not ok_shape:
+                ex.oblige(f"result is [Global(...)] optionally followed by [Nonlocal(...)] {tag}", p.st, z3.BoolVal(False))
+                continue
+            g = items[0].names
+            idx = ex.load_name(p.st, "scope").idx
+            goal = [idx == m.K, i == m.K - 1, z3.BoolVal(all(it.names.kind == "list" for it in items))]
+            goal += [g.bits[j] == z3.Not(m.Seen(m.K - 1, j)) for j in range(k)]                 # global <=> no enclosing function/let binds it
+            goal += [z3.Implies(g.bits[j], m.In(m.K, j)) for j in range(k)]                     # ... and it is a module-level variable
+            if len(items) == 2:
+                nl = items[1].names
+                goal += [nl.bits[j] == m.Seen(m.K - 1, j) for j in range(k)] + [z3.Or(list(nl.bits))]
+            else:
+                goal += [z3.Not(m.Seen(m.K - 1, j)) for j in range(k)]
+            ex.oblige(f"`global` lists exactly the names no enclosing function or let binds (class bodies never count), all of them "
+                      f"module-level variables; `nonlocal` lists exactly the others; both in declaration order {tag}", p.st, z3.And(goal))
+        ex.oblige(f"vacuity: both result shapes are reachable {tag}", st, z3.BoolVal(n_ret["global"] >= 1 and n_ret["nonlocal"] >= 2))
+        discharge(chk, prefix, ex, extra_models=concrete)
+        chk.extra[f"visit_OuterVar_paths_k{k}"] = len(paths)
